@@ -27,14 +27,22 @@ TRUSTED_BASE = [
     "EXACT API-level correspondence (data/indices/indptr/compressed axes; dict items) on every generated case, also on "
     "the out-of-domain cases for DOK/COO; convert_to_flat's odometer loop is abstracted to its row-major list meaning "
     "(flat_sums) and tied at kernel level",
-    "agent c05's Model/Convert.v + Proofs/Convert{L,M,G,P}.v (COO constructor, COO.from_iter, DOK.from_coo, gcxs_from_coo, "
-    "gcxs_tocoo) imported read-only by the GCXS-1-d and DOK wrapper models/theorems",
+    "agent c05's Model/Convert.v + Proofs/Convert{L,M,G,P,U}.v (COO constructor, COO.from_iter, DOK.from_coo, gcxs_from_coo, "
+    "gcxs_tocoo, gcxs_from_coo_wf/den, gcxs_image: every well-formed GCXS is from_coo of its COO form) imported read-only by "
+    "the GCXS and DOK wrapper models/theorems",
     "correspondence harness tools/props/c02.py, tools/props/c02_index.py, tools/vlib.py",
 ]
 UNPROVED = [
-    "gcxs_getitem_den / gcxs_getitem_wf for ndim >= 2 (Model/GcxsGetitem.v:gcxs_getitem_nd): the wrapper is modelled and tied "
-    "by exact correspondence; proved so far: the kernels (gcxs_selection_spec), the CSR-from-sorted-keys lemmas and the "
-    "convert_to_flat enumeration lemmas of Proofs/GcxsGetitemP.v; not yet the theorem g[ix] = from_coo(c[ix])",
+    "gcxs_getitem_den / gcxs_getitem_wf are proved for every well-formed 2-d GCXS (CSR and CSC) and every basic index "
+    "without None (Props: gcxs_getitem_den_2d_partial, gcxs_getitem_wf_2d_partial; result = GCXS.from_coo of the COO result). "
+    "NOT proved: ndim >= 3 (Model/GcxsGetitem.v:gcxs_getitem_nd is modelled for every ndim and tied by exact correspondence; the "
+    "layout-independent lemmas of Proofs/GcxsGetitemP.v — kernels on a from_coo array, master_members/master_gsorted, assemble_nd/"
+    "assemble_1d, single_element_den, convert_to_flat_ravel — hold for every ndim, but the bridge between result indices and "
+    "(row, column) numbers and the re-splitting branches `uncompressed // size` are only instantiated for ndim = 2)",
+    "GCXS indices containing None in the positions the code handles correctly (at least two surviving axes, no integer before "
+    "the None): modelled (reinsert_none) and tested by exact correspondence, not proved",
+    "GCXS indices with ONE index array (get_array_selection through the wrapper): kernel proved (gcxs_selection_spec), wrapper "
+    "modelled and tested, the wrapper theorem not proved",
     "the scalar-vs-0-d rule for indices with arrays (never scalar on either side) is not stated separately",
 ]
 ASSUMPTIONS = ["element values are opaque; dtype handling is not modelled"]
